@@ -19,6 +19,9 @@ Proof.
   apply IH. lia.
 Qed.
 
+Lemma nth_map_zero (l : list Z) m : nth m (map (fun _ : Z => 0) l) 0 = 0.
+Proof. revert m; induction l as [|a l IH]; intros [|m]; cbn [map nth]; auto. Qed.
+
 (* the break in the compiled deltaE_trial is harmless on energy-first rows *)
 Lemma dcl_row_length ne d r : forall dc, length (dcl_row ne d dc r) = length dc.
 Proof.
@@ -153,4 +156,324 @@ Proof.
     destruct (Nat.leb_spec (Nenergy sd) m); [reflexivity | lia].
 Qed.
 
+
+(* ------------------------------------------------------------------------- update -- *)
+(* replacing the entry at position p of a listing: xout leaves, xin enters *)
+Lemma listing_swap (arr : list nat) (n : nat) (v : Z) (oc oc' idx idx' : nat -> Z) (p xin xout : nat) :
+  length arr = Nsites -> (n <= Nsites)%nat -> (p < n)%nat -> nth p arr O = xout ->
+  (forall k, (k < n)%nat -> (nth k arr O < Nsites)%nat /\ oc (nth k arr O) = v /\ idx (nth k arr O) = Z.of_nat k) ->
+  (forall x, (x < Nsites)%nat -> oc x = v -> exists k, (k < n)%nat /\ idx x = Z.of_nat k /\ nth k arr O = x) ->
+  (xin < Nsites)%nat -> oc xin <> v -> oc' xin = v -> oc' xout <> v ->
+  (forall x, x <> xin -> x <> xout -> oc' x = oc x) ->
+  idx' xin = Z.of_nat p -> (forall x, x <> xin -> x <> xout -> idx' x = idx x) ->
+  (forall k, (k < n)%nat -> (nth k (upd arr p xin) O < Nsites)%nat /\ oc' (nth k (upd arr p xin) O) = v /\
+                            idx' (nth k (upd arr p xin) O) = Z.of_nat k) /\
+  (forall x, (x < Nsites)%nat -> oc' x = v ->
+             exists k, (k < n)%nat /\ idx' x = Z.of_nat k /\ nth k (upd arr p xin) O = x).
+Proof.
+  intros La Ln Hp Eout L1 L2 Hin Oin Oin' Oout' Ooth Iin Ioth.
+  assert (Ip : idx xout = Z.of_nat p) by (rewrite <- Eout; apply (L1 p Hp)).
+  split.
+  - intros k Hk. destruct (Nat.eq_dec k p) as [->|N].
+    + rewrite nth_upd_eq by lia. auto.
+    + rewrite nth_upd_neq by exact N. destruct (L1 k Hk) as [A [B C]].
+      assert (nth k arr O <> xin) by (intro E; rewrite E in B; contradiction).
+      assert (nth k arr O <> xout) by (intro E; rewrite E in C; lia).
+      rewrite Ooth, Ioth by assumption. auto.
+  - intros x Hx Ox. destruct (Nat.eq_dec x xin) as [->|N].
+    + exists p. rewrite nth_upd_eq by lia. auto.
+    + assert (x <> xout) by (intro; subst x; contradiction).
+      rewrite Ooth in Ox by assumption. destruct (L2 x Hx Ox) as [k [Hk [A B]]].
+      exists k. rewrite Ioth by assumption. split; [exact Hk|]. split; [exact A|].
+      rewrite nth_upd_neq; [exact B|]. intro; subst k. rewrite Eout in B. congruence.
+Qed.
+
+Theorem R_update st s i j : R st s ->
+  (i < Nsites)%nat -> (j < Nsites)%nat -> nth i (occ st) 2 = 0 -> nth j (occ st) 2 = 1 ->
+  exists st', update K sd st [i] [j] = Some st' /\ R st' (jupdate K sd s i j) /\
+              Nocc (jupdate K sd s i j) = Nocc s /\ Nunocc (jupdate K sd s i j) = Nunocc s.
+Proof.
+  intros HR Hi Hj Oi Oj. pose proof (R_inv st s HR) as I.
+  pose proof (inv_len K sd st I) as L.
+  destruct (inv_occ K sd st I) as [_ V2].
+  assert (Vi : is_vac i = false).
+  { destruct (V2 i ltac:(rewrite L; exact Hi)) as [[_ ?]|[_ [? _]]]; [assumption | contradiction]. }
+  assert (Vj : is_vac j = false).
+  { destruct (V2 j ltac:(rewrite L; exact Hj)) as [[_ ?]|[_ [_ ?]]]; [assumption | contradiction]. }
+  assert (Nij : i <> j) by (intro; subst; lia).
+  destruct (update_total K sd st [i] [j] I) as [st' U].
+  { unfold vac_in. cbn [existsb]. rewrite Vi. reflexivity. }
+  { unfold vac_in. cbn [existsb]. rewrite Vj. reflexivity. }
+  { intros x [<-|[]]; exact Hi. }
+  { intros x [<-|[]]; exact Hj. }
+  exists st'. split; [exact U|].
+  pose proof (update_Inv K sd st [i] [j] st' I U) as I'.
+  (* the reference result, explicitly *)
+  assert (Est : occ st' = upd (upd (occ st) i 1) j 0 /\
+                cc st' = bump_all 1 (bump_all (-1) (cc st) (row i)) (row j)).
+  { unfold update, vac_in in U. cbn [existsb fold_left] in U. rewrite Vi, Vj in U. cbn [orb] in U.
+    cbn [occupy] in U. rewrite L in U. destruct (Nat.leb_spec Nsites i); [lia|].
+    rewrite Oi in U. change (0 =? 0) with true in U. cbv iota in U.
+    destruct (set_remove i (uset st)) as [u'|]; [|discriminate].
+    cbn [unoccupy occ] in U. rewrite upd_length, L in U. destruct (Nat.leb_spec Nsites j); [lia|].
+    rewrite nth_upd_neq in U by lia. rewrite Oj in U. change (1 =? 1) with true in U. cbv iota in U.
+    cbn [oset cc uset] in U. destruct (set_remove j (set_add i (oset st))) as [o'|]; [|discriminate].
+    inversion U; subst st'. cbn [occ cc]. split; reflexivity. }
+  destruct Est as [Eo Ec].
+  destruct HR as [_ Ro Rc Lo Lu Li No Nu O1 O2 U1 U2].
+  destruct (O2 j Hj Oj) as [b [Hb [Ib Eb]]]. destruct (U2 i Hi Oi) as [a [Ha [Ia Ea]]].
+  assert (Oc' : forall x, nth x (occ st') 2 = if Nat.eqb x j then 0 else if Nat.eqb x i then 1 else nth x (occ st) 2).
+  { intro x. rewrite Eo. destruct (Nat.eqb_spec x j) as [->|N1].
+    - apply nth_upd_eq. rewrite upd_length. lia.
+    - rewrite nth_upd_neq by exact N1. destruct (Nat.eqb_spec x i) as [->|N2].
+      + apply nth_upd_eq. lia.
+      + apply nth_upd_neq. exact N2. }
+  assert (Ix' : forall x, nth x (jindex (jupdate K sd s i j)) (-1) =
+                          if Nat.eqb x j then Z.of_nat a else if Nat.eqb x i then Z.of_nat b else nth x (jindex s) (-1)).
+  { intro x. unfold jupdate. cbn [jindex]. rewrite Ia, Ib, !Nat2Z.id. destruct (Nat.eqb_spec x j) as [->|N1].
+    - apply nth_upd_eq. rewrite upd_length. lia.
+    - rewrite nth_upd_neq by exact N1. destruct (Nat.eqb_spec x i) as [->|N2].
+      + apply nth_upd_eq. lia.
+      + apply nth_upd_neq. exact N2. }
+  assert (Ej : Nat.eqb i j = false) by (apply Nat.eqb_neq; exact Nij).
+  assert (Ej' : Nat.eqb j i = false) by (apply Nat.eqb_neq; lia).
+  destruct (listing_swap (joset s) (Nocc s) 1 (fun x => nth x (occ st) 2) (fun x => nth x (occ st') 2)
+              (fun x => nth x (jindex s) (-1)) (fun x => nth x (jindex (jupdate K sd s i j)) (-1)) b i j) as [O1' O2'];
+    try assumption; try lia.
+  { cbv beta. rewrite Oc', Ej, Nat.eqb_refl. reflexivity. }
+  { cbv beta. rewrite Oc', Nat.eqb_refl. lia. }
+  { intros x N1 N2. cbv beta. rewrite Oc'. destruct (Nat.eqb_spec x j); [contradiction|]. destruct (Nat.eqb_spec x i); [contradiction|]. reflexivity. }
+  { cbv beta. rewrite Ix', Ej, Nat.eqb_refl. reflexivity. }
+  { intros x N1 N2. cbv beta. rewrite Ix'. destruct (Nat.eqb_spec x j); [contradiction|]. destruct (Nat.eqb_spec x i); [contradiction|]. reflexivity. }
+  destruct (listing_swap (juset s) (Nunocc s) 0 (fun x => nth x (occ st) 2) (fun x => nth x (occ st') 2)
+              (fun x => nth x (jindex s) (-1)) (fun x => nth x (jindex (jupdate K sd s i j)) (-1)) a j i) as [U1' U2'];
+    try assumption; try lia.
+  { cbv beta. rewrite Oc', Nat.eqb_refl. reflexivity. }
+  { cbv beta. rewrite Oc', Ej, Nat.eqb_refl. lia. }
+  { intros x N1 N2. cbv beta. rewrite Oc'. destruct (Nat.eqb_spec x j); [contradiction|]. destruct (Nat.eqb_spec x i); [contradiction|]. reflexivity. }
+  { cbv beta. rewrite Ix', Nat.eqb_refl. reflexivity. }
+  { intros x N1 N2. cbv beta. rewrite Ix'. destruct (Nat.eqb_spec x j); [contradiction|]. destruct (Nat.eqb_spec x i); [contradiction|]. reflexivity. }
+  split; [|split; reflexivity].
+  assert (Eb' : Z.to_nat (nth j (jindex s) (-1)) = b) by (rewrite Ib; apply Nat2Z.id).
+  assert (Ea' : Z.to_nat (nth i (jindex s) (-1)) = a) by (rewrite Ia; apply Nat2Z.id).
+  constructor.
+  - exact I'.
+  - unfold jupdate; cbn [jocc]. rewrite Ro, Eo. reflexivity.
+  - unfold jupdate; cbn [jcc]. rewrite Rc, Ec. reflexivity.
+  - unfold jupdate; cbn [joset]. rewrite upd_length. exact Lo.
+  - unfold jupdate; cbn [juset]. rewrite upd_length. exact Lu.
+  - unfold jupdate; cbn [jindex]. rewrite !upd_length. exact Li.
+  - exact No.
+  - exact Nu.
+  - intros k Hk. unfold jupdate at 1 2 3. cbn [joset Nocc] in *. rewrite Eb'. apply O1'. exact Hk.
+  - intros x Hx Ox. destruct (O2' x Hx Ox) as [k [Hk [A B]]]. exists k. unfold jupdate at 1 3. cbn [joset Nocc]. rewrite Eb'. auto.
+  - intros k Hk. unfold jupdate at 1 2 3. cbn [juset Nunocc] in *. rewrite Ea'. apply U1'. exact Hk.
+  - intros x Hx Ox. destruct (U2' x Hx Ox) as [k [Hk [A B]]]. exists k. unfold jupdate at 1 3. cbn [juset Nunocc]. rewrite Ea'. auto.
+Qed.
+
+
+(* ------------------------------------------------------------------------- start -- *)
+(* array sizes the constructor (MonteCarloSampler_param) provides *)
+Definition WFJ (s : jstate) : Prop :=
+  length (jocc s) = Nsites /\ length (jcc s) = Nint /\ length (joset s) = Nsites /\
+  length (juset s) = Nsites /\ length (jindex s) = Nsites.
+
+Definition idxf (s : jstate) (x : nat) : Z := nth x (jindex s) (-1).
+
+(* loop invariant of start() before processing site i *)
+Definition Pst (o : list Z) (i : nat) (s : jstate) : Prop :=
+  WFJ s /\ (Nocc s + Nunocc s <= i)%nat /\
+  (forall x, (x < i)%nat -> nth x (jocc s) 2 = nth x o 2) /\
+  (forall m, (m < Nint)%nat ->
+     nth m (jcc s) 0 + cnt_rows (combine (skipn i o) (skipn i (siteinteract sd))) m = cnt K sd o m) /\
+  (forall k, (k < Nocc s)%nat -> (nth k (joset s) O < i)%nat /\ nth (nth k (joset s) O) o 2 = 1 /\
+                                 idxf s (nth k (joset s) O) = Z.of_nat k) /\
+  (forall x, (x < i)%nat -> nth x o 2 = 1 -> exists k, (k < Nocc s)%nat /\ idxf s x = Z.of_nat k /\ nth k (joset s) O = x) /\
+  (forall k, (k < Nunocc s)%nat -> (nth k (juset s) O < i)%nat /\ nth (nth k (juset s) O) o 2 = 0 /\
+                                   idxf s (nth k (juset s) O) = Z.of_nat k) /\
+  (forall x, (x < i)%nat -> nth x o 2 = 0 -> exists k, (k < Nunocc s)%nat /\ idxf s x = Z.of_nat k /\ nth k (juset s) O = x).
+
+Lemma Pst_step o i s : length o = Nsites -> (i < Nsites)%nat -> Pst o i s -> Pst o (S i) (jstart_step K sd o s i).
+Proof.
+  intros Lo Hi [[L1 [L2 [L3 [L4 L5]]]] [Hn [Ho [Hc [O1 [O2 [U1 U2]]]]]]].
+  assert (SK : forall m, cnt_rows (combine (skipn i o) (skipn i (siteinteract sd))) m =
+                         (if nth i o 2 =? 0 then cnto (row i) m else 0) +
+                         cnt_rows (combine (skipn (S i) o) (skipn (S i) (siteinteract sd))) m).
+  { intro m. rewrite (skipn_cons_nth o i 2) by lia.
+    rewrite (skipn_cons_nth (siteinteract sd) i []) by (unfold Sampler.Nsites in Hi; exact Hi).
+    cbn [combine cnt_rows]. unfold cnto, Sampler.row. reflexivity. }
+  assert (IX : forall (idx : list Z) x v, length idx = Nsites -> x <> i -> nth x (upd idx i v) (-1) = nth x idx (-1)).
+  { intros. apply nth_upd_neq. assumption. }
+  unfold jstart_step. cbn [jocc jcc Nocc Nunocc joset juset jindex].
+  destruct (Z.eqb_spec (nth i o 2) 1) as [E1|N1]; [|destruct (Z.eqb_spec (nth i o 2) 0) as [E0|N0]];
+    unfold Pst, WFJ, idxf; cbn [jocc jcc Nocc Nunocc joset juset jindex]; rewrite ?upd_length, ?bump_all_length.
+  - (* occupied *)
+    split; [repeat split; assumption|]. split; [lia|]. split; [|split; [|split; [|split; [|split]]]].
+    + intros x Hx. destruct (Nat.eq_dec x i) as [->|N]; [rewrite nth_upd_eq by lia; reflexivity | rewrite nth_upd_neq by exact N; apply Ho; lia].
+    + intros m Hm. rewrite <- (Hc m Hm), SK, E1. change (1 =? 0) with false. cbv iota. lia.
+    + intros k Hk. destruct (Nat.eq_dec k (Nocc s)) as [->|N].
+      * rewrite nth_upd_eq by lia. rewrite nth_upd_eq by lia. repeat split; [lia | exact E1].
+      * rewrite nth_upd_neq by exact N. destruct (O1 k ltac:(lia)) as [A [B C]]. unfold idxf in C.
+        rewrite nth_upd_neq by lia. repeat split; [lia | exact B | exact C].
+    + intros x Hx Ox. destruct (Nat.eq_dec x i) as [->|N].
+      * exists (Nocc s). rewrite !nth_upd_eq by lia. repeat split; lia.
+      * destruct (O2 x ltac:(lia) Ox) as [k [Hk [A B]]]. exists k. unfold idxf in A.
+        rewrite !nth_upd_neq by lia. repeat split; [lia | exact A | exact B].
+    + intros k Hk. destruct (U1 k Hk) as [A [B C]]. unfold idxf in C. rewrite nth_upd_neq by lia.
+      repeat split; [lia | exact B | exact C].
+    + intros x Hx Ox. assert (x <> i) by (intro; subst; lia).
+      destruct (U2 x ltac:(lia) Ox) as [k [Hk [A B]]]. exists k. unfold idxf in A. rewrite nth_upd_neq by lia.
+      repeat split; assumption.
+  - (* unoccupied *)
+    split; [repeat split; assumption|]. split; [lia|]. split; [|split; [|split; [|split; [|split]]]].
+    + intros x Hx. destruct (Nat.eq_dec x i) as [->|N]; [rewrite nth_upd_eq by lia; reflexivity | rewrite nth_upd_neq by exact N; apply Ho; lia].
+    + intros m Hm. rewrite nth_bump_all by lia. rewrite <- (Hc m Hm), SK. lia.
+    + intros k Hk. destruct (O1 k Hk) as [A [B C]]. unfold idxf in C. rewrite nth_upd_neq by lia.
+      repeat split; [lia | exact B | exact C].
+    + intros x Hx Ox. assert (x <> i) by (intro; subst; lia).
+      destruct (O2 x ltac:(lia) Ox) as [k [Hk [A B]]]. exists k. unfold idxf in A. rewrite nth_upd_neq by lia.
+      repeat split; assumption.
+    + intros k Hk. destruct (Nat.eq_dec k (Nunocc s)) as [->|N].
+      * rewrite nth_upd_eq by lia. rewrite nth_upd_eq by lia. repeat split; [lia | exact E0].
+      * rewrite nth_upd_neq by exact N. destruct (U1 k ltac:(lia)) as [A [B C]]. unfold idxf in C.
+        rewrite nth_upd_neq by lia. repeat split; [lia | exact B | exact C].
+    + intros x Hx Ox. destruct (Nat.eq_dec x i) as [->|N].
+      * exists (Nunocc s). rewrite !nth_upd_eq by lia. repeat split; lia.
+      * destruct (U2 x ltac:(lia) Ox) as [k [Hk [A B]]]. exists k. unfold idxf in A.
+        rewrite !nth_upd_neq by lia. repeat split; [lia | exact A | exact B].
+  - (* neither: the vacancy *)
+    split; [repeat split; assumption|]. split; [lia|]. split; [|split; [|split; [|split; [|split]]]].
+    + intros x Hx. destruct (Nat.eq_dec x i) as [->|N]; [rewrite nth_upd_eq by lia; reflexivity | rewrite nth_upd_neq by exact N; apply Ho; lia].
+    + intros m Hm. rewrite <- (Hc m Hm), SK. lia.
+    + intros k Hk. destruct (O1 k Hk) as [A [B C]]. unfold idxf in C. rewrite nth_upd_neq by lia.
+      repeat split; [lia | exact B | exact C].
+    + intros x Hx Ox. assert (x <> i) by (intro; subst; contradiction).
+      destruct (O2 x ltac:(lia) Ox) as [k [Hk [A B]]]. exists k. unfold idxf in A. rewrite nth_upd_neq by lia.
+      repeat split; assumption.
+    + intros k Hk. destruct (U1 k Hk) as [A [B C]]. unfold idxf in C. rewrite nth_upd_neq by lia.
+      repeat split; [lia | exact B | exact C].
+    + intros x Hx Ox. assert (x <> i) by (intro; subst; contradiction).
+      destruct (U2 x ltac:(lia) Ox) as [k [Hk [A B]]]. exists k. unfold idxf in A. rewrite nth_upd_neq by lia.
+      repeat split; assumption.
+Qed.
+
+Lemma Pst_loop o : length o = Nsites -> forall rem i s, (i + rem = Nsites)%nat -> Pst o i s ->
+  Pst o Nsites (jstart_loop K sd rem i o s).
+Proof.
+  intro Lo. induction rem as [|rem IH]; intros i s Hr P; cbn [jstart_loop].
+  - replace Nsites with i by lia. exact P.
+  - apply IH; [lia|]. apply Pst_step; [exact Lo | lia | exact P].
+Qed.
+
+(* start() of the compiled sampler, called in ANY earlier state, is related to the reference start() *)
+Theorem R_start s0 o st : WFJ s0 -> start K sd o = Some st -> R st (jstart K sd s0 o).
+Proof.
+  intros [W1 [W2 [W3 [W4 W5]]]] S. destruct (start_Inv K sd o st S) as [I Eo].
+  pose proof (inv_len K sd st I) as L. rewrite Eo in L.
+  assert (P0 : Pst o O (mkJ (jocc s0) (map (fun _ => 0) (jcc s0)) O O (joset s0) (juset s0) (jindex s0))).
+  { unfold Pst, WFJ; cbn [jocc jcc Nocc Nunocc joset juset jindex]. rewrite map_length.
+    split; [repeat split; assumption|]. split; [lia|]. split; [intros; lia|]. split.
+    - intros m Hm. cbn [skipn]. unfold cnt.
+      rewrite nth_map_zero. lia.
+    - repeat split; intros; lia. }
+  pose proof (Pst_loop o L Nsites O _ eq_refl P0) as P. fold (jstart K sd s0 o) in P.
+  destruct P as [[L1 [L2 [L3 [L4 L5]]]] [Hn [Ho [Hc [O1 [O2 [U1 U2]]]]]]].
+  constructor; try assumption; try lia.
+  - rewrite Eo. apply (nth_ext _ _ 2 2); [lia|]. intros x Hx. apply Ho. lia.
+  - rewrite (inv_cc K sd st I), Eo. apply nth_ext_Z; [rewrite cnt_list_length; exact L2|].
+    intros m Hm. rewrite L2 in Hm. rewrite nth_cnt_list by exact Hm. rewrite <- (Hc m Hm).
+    rewrite skipn_all2 by lia. cbn [combine cnt_rows]. lia.
+  - rewrite Eo. intros k Hk. apply O1. exact Hk.
+  - rewrite Eo. intros x Hx Ox. apply O2; assumption.
+  - rewrite Eo. intros k Hk. apply U1. exact Hk.
+  - rewrite Eo. intros x Hx Ox. apply U2; assumption.
+Qed.
+
+Lemma R_WFJ st s : R st s -> WFJ s.
+Proof.
+  intros [I Ro Rc Lo Lu Li _ _ _ _ _ _]. unfold WFJ. rewrite Ro, Rc, (inv_cc K sd st I), cnt_list_length.
+  repeat split; try assumption. apply (inv_len K sd st I).
+Qed.
+
+(* ------------------------------------------------------------------------- transitions -- *)
+Definition jumps_ok (js : list (nat * nat)) : Prop :=
+  forall i j, In (i, j) js -> (i < Nsites)%nat /\ (j < Nsites)%nat /\ (0 <= vacancy sd -> is_vac i = true).
+
+Theorem R_transitions st s js : R st s -> jumps sd = Some js -> jumps_ok js ->
+  transitions K sd st = Some (finite_only K (jtransitions K sd s)).
+Proof.
+  intros HR J OK. unfold transitions, jtransitions. rewrite J. f_equal. clear J.
+  pose proof (R_inv st s HR) as I. destruct (inv_occ K sd st I) as [V1 V2].
+  pose proof (inv_len K sd st I) as L.
+  generalize O. induction js as [|[i j] js IH]; intro n; cbn [trans_loop jtrans_loop finite_only]; [reflexivity|].
+  destruct (OK i j (or_introl eq_refl)) as [Hi [Hj Hv]].
+  assert (OK' : jumps_ok js) by (intros a b H; apply OK; right; exact H).
+  unfold jallowed. rewrite (R_occ st s HR), (R_cc st s HR).
+  destruct (Z.ltb_spec (vacancy sd) 0) as [Vn|Vp]; cbn [andb].
+  - (* no vacancy: every site holds 0 or 1 *)
+    assert (B : forall x, (x < Nsites)%nat -> nth x (occ st) 2 = 0 \/ nth x (occ st) 2 = 1).
+    { intros x Hx. destruct (V2 x ltac:(lia)) as [[? _]|[V _]]; [assumption|].
+      unfold Sampler.is_vac in V. apply Z.eqb_eq in V. lia. }
+    destruct (B i Hi) as [Ei|Ei], (B j Hj) as [Ej|Ej]; rewrite Ei, Ej; cbn; rewrite (IH OK'); reflexivity.
+  - (* vacancy: every jump starts at the vacancy, whose occupation is -1 *)
+    specialize (Hv Vp). apply is_vac_true in Hv. destruct Hv as [_ ->].
+    rewrite (nth_indep (occ st) 2 0) by lia. rewrite (V1 Vp). cbn. rewrite (IH OK'). reflexivity.
+Qed.
+
+(* ------------------------------------------------------------------------- MCmoves -- *)
+Theorem MCmoves_app s l1 l2 : jMCmoves K sd s (l1 ++ l2) = jMCmoves K sd (jMCmoves K sd s l1) l2.
+Proof. unfold jMCmoves. apply fold_left_app. Qed.
+
+Theorem MCmoves_one s mv : jMCmoves K sd s [mv] = jmc_step K sd s mv.
+Proof. reflexivity. Qed.
+
+Lemma R_mc_step st s oc uc t : R st s -> (Nenergy sd <= Nint)%nat -> rows_okb K sd = true ->
+  (oc < Nunocc s)%nat -> (uc < Nocc s)%nat ->
+  exists st', ref_mc_step K sd st (nth oc (juset s) O) (nth uc (joset s) O) t = Some st' /\
+              R st' (jmc_step K sd s (oc, uc, t)) /\
+              Nocc (jmc_step K sd s (oc, uc, t)) = Nocc s /\ Nunocc (jmc_step K sd s (oc, uc, t)) = Nunocc s.
+Proof.
+  intros HR N RO Ho Hu.
+  destruct (R_u1 st s HR oc Ho) as [Hi [Oi _]]. destruct (R_o1 st s HR uc Hu) as [Hj [Oj _]].
+  unfold ref_mc_step, jmc_step. rewrite (R_deltaE st s _ _ HR N RO Hi Hj Oi Oj).
+  destruct (rltb K (jdeltaE K sd s (nth oc (juset s) O) (nth uc (joset s) O)) t).
+  - destruct (R_update st s _ _ HR Hi Hj Oi Oj) as [st' [U [HR' [A B]]]]. exists st'. auto.
+  - exists st. auto.
+Qed.
+
+(* a batch of moves: the compiled sampler stays related to the reference sampler driven, move by move,
+   by the Metropolis rule on the sites the compiled sampler picks *)
+Theorem R_MCmoves moves : forall st s, R st s -> (Nenergy sd <= Nint)%nat -> rows_okb K sd = true ->
+  (forall oc uc t, In (oc, uc, t) moves -> (oc < Nunocc s)%nat /\ (uc < Nocc s)%nat) ->
+  exists st', co_run K sd st s moves = Some (st', jMCmoves K sd s moves) /\ R st' (jMCmoves K sd s moves).
+Proof.
+  induction moves as [|[[oc uc] t] moves IH]; intros st s HR N RO Hm; cbn [co_run jMCmoves fold_left].
+  - exists st. auto.
+  - destruct (Hm oc uc t (or_introl eq_refl)) as [Ho Hu].
+    destruct (R_mc_step st s oc uc t HR N RO Ho Hu) as [st1 [E1 [HR1 [A B]]]].
+    rewrite E1. unfold jMCmoves in IH.
+    apply (IH st1 (jmc_step K sd s (oc, uc, t)) HR1 N RO).
+    intros oc' uc' t' H. rewrite A, B. apply (Hm oc' uc' t'). right. exact H.
+Qed.
+
 End JitProofs.
+
+(* non-vacuity: a 3-site chain with pair interactions, one jump, energies in Z *)
+Definition sdJ : static Zring :=
+  mkStatic (K:=Zring) [[O; 1%nat; 3%nat]; [O; 2%nat; 3%nat]; [1%nat; 2%nat]] [3; 5; 7; 2; 4] 3 (-1)
+           (Some [(O, 1%nat)]) [5%nat; 3%nat].
+Definition j0 : jstate := mkJ [1; 1; 1] [0; 0; 0; 0; 0] 3 0 [O; 1%nat; 2%nat] [O; O; O] [0; 1; 2].
+
+Example jit_example :
+  let s := jstart Zring sdJ j0 [1; 0; 1] in
+  rows_okb Zring sdJ = true /\
+  jocc s = [1; 0; 1] /\ jcc s = [1; 0; 1; 1; 0] /\ Nocc s = 2%nat /\ Nunocc s = 1%nat /\
+  jE Zring sdJ s = 5 /\ jdeltaE Zring sdJ s 1%nat O = 2 /\
+  jtransitions Zring sdJ s = [(O, (O, 1%nat), Some 4)] /\
+  jocc (jMCmoves Zring sdJ s [(O, O, 3)]) = [0; 1; 1] /\ jocc (jMCmoves Zring sdJ s [(O, O, 2)]) = [1; 0; 1].
+Proof. vm_compute. repeat split. Qed.
+
+Example R_example : exists st, start Zring sdJ [1; 0; 1] = Some st /\ R Zring sdJ st (jstart Zring sdJ j0 [1; 0; 1]).
+Proof.
+  eexists. split; [reflexivity|]. apply R_start; [|reflexivity]. unfold WFJ. cbn. repeat split.
+Qed.
